@@ -276,9 +276,9 @@ Proof.
         eapply sem_ext; [apply (mkLScal_sem true a c o W (fun _ => F) E)|].
         intros x Hx. cbn beta. symmetry. apply (olin_hom a W L c x Hx).
       * unfold mkFRScal in E. rewrite F in E. apply (mkRScal_sem true a c o W (fun _ => F) E).
-  - assert (Gen : (if olin a && (rl || negb (v_real_shortcut vt)) then rmul_c a c else mkRScal false a c) = Ok o ->
+  - assert (Gen : (if olin a && rl then rmul_c a c else mkRScal false a c) = Ok o ->
                   sem o (odom a) (oran a) (fun x => eval a (vscal c x))).
-    { intros E'. destruct (olin a) eqn:L; [destruct (rl || negb (v_real_shortcut vt))|]; cbn [andb] in E';
+    { intros E'. destruct (olin a) eqn:L; [destruct rl|]; cbn [andb] in E';
         [| apply (mkRScal_sem false a c o W ltac:(discriminate) E') | ].
       - eapply sem_ext; [eapply rmul_c_sem; eauto|].
         intros x Hx. cbn beta. symmetry. apply (olin_hom a W L c x Hx).
@@ -614,8 +614,8 @@ Proof.
     + rewrite (mkLScal_lin _ _ _ _ E). assumption.
   - cbn [andb] in E.
     assert (G : forall a0 : oexpr, olin a0 = true ->
-              (if rl || negb (v_real_shortcut vt) then rmul_c a0 c else mkRScal false a0 c) = Ok o -> olin o = true).
-    { intros a0 L0 E0. destruct (rl || negb (v_real_shortcut vt));
+              (if rl then rmul_c a0 c else mkRScal false a0 c) = Ok o -> olin o = true).
+    { intros a0 L0 E0. destruct rl;
         [apply (rmul_c_lin _ _ _ E0 L0) | rewrite (mkRScal_lin _ _ _ _ E0); exact L0]. }
     destruct a; try (apply (G _ La E)).
     rewrite (mkRScal_lin _ _ _ _ E). exact La.
@@ -736,8 +736,8 @@ Proof.
   unfold Model.mul_c, mkFLScal, mkFRScal. destruct (ofunc a) eqn:F.
   - destruct (c =? nzero); [intros E; inversion E; reflexivity|].
     destruct (Model.olin vt a); [apply mkLScal_func | apply mkRScal_func].
-  - assert (G : (if Model.olin vt a && (rl || negb (v_real_shortcut vt)) then rmul_c a c else mkRScal false a c) = Ok o -> ofunc o = false).
-    { destruct (Model.olin vt a && (rl || negb (v_real_shortcut vt))); intros E; [rewrite (rmul_c_func _ _ _ E); exact F | apply (mkRScal_func _ _ _ _ E)]. }
+  - assert (G : (if Model.olin vt a && rl then rmul_c a c else mkRScal false a c) = Ok o -> ofunc o = false).
+    { destruct (Model.olin vt a && rl); intros E; [rewrite (rmul_c_func _ _ _ E); exact F | apply (mkRScal_func _ _ _ _ E)]. }
     destruct a; try exact G. apply mkRScal_func.
 Qed.
 Lemma mkSum_func fn (a b : oexpr) o : mkSum fn a b = Ok o -> ofunc o = fn.
@@ -878,9 +878,9 @@ Lemma mul_c_ok (a : oexpr) c rl : exists o, mul_c a c rl = Ok o.
 Proof.
   unfold Model.mul_c, mkFLScal, mkFRScal. destruct (ofunc a) eqn:F.
   - destruct (c =? nzero); [eauto|]. destruct (Model.olin vt a); [apply mkLScal_ok | apply mkRScal_ok].
-  - assert (G : exists o, (if Model.olin vt a && (rl || negb (v_real_shortcut vt)) then rmul_c a c
+  - assert (G : exists o, (if Model.olin vt a && rl then rmul_c a c
                            else mkRScal false a c) = Ok o)
-      by (destruct (Model.olin vt a && (rl || negb (v_real_shortcut vt))); [apply rmul_c_ok | apply mkRScal_ok]).
+      by (destruct (Model.olin vt a && rl); [apply rmul_c_ok | apply mkRScal_ok]).
     destruct a; try exact G. apply mkRScal_ok.
 Qed.
 Lemma mkSum_ok fn (a b : oexpr) : oran a = oran b -> odom a = odom b -> exists o, mkSum fn a b = Ok o.
